@@ -15,6 +15,9 @@ pub mod c11;
 pub mod c12;
 pub mod c13;
 pub mod streams;
+pub mod c16;
+pub mod c17;
+pub mod c17canon;
 pub mod c18;
 pub mod c19;
 pub mod c20;
@@ -43,6 +46,8 @@ pub fn dispatch(prop: &str, cfg: &Cfg) -> Option<Report> {
         "C11" => c11::run(cfg),
         "C12" => c12::run(cfg),
         "C13" => c13::run(cfg),
+        "C16" => c16::run(cfg),
+        "C17" => c17::run(cfg),
         "C18" => c18::run(cfg),
         "C19" => c19::run(cfg),
         "C20" => c20::run(cfg),
